@@ -14,6 +14,7 @@ from vt.oracles import rayode
 
 PROPERTY = "C01"
 TITLE = "Every ray-trace solution is a true ray"
+TECHNIQUE = ('runtime monitoring: recorded tracer solutions (fresh and re-pointed tracer objects) decided by an independent arc-length integrator of the ray equation (arrival point, path length, time of flight, n sin(theta)); sys.monitoring reach and line counters on the anchors')
 ANCHORS = ["pyrex.ray_tracing:SpecializedRayTracePath._int_terms", "pyrex.ray_tracing:SpecializedRayTracePath._distance_integral",
            "pyrex.ray_tracing:SpecializedRayTracePath._pathlen_integral", "pyrex.ray_tracing:SpecializedRayTracePath._tof_integral",
            "pyrex.ray_tracing:BasicRayTracer._get_launch_angle", "pyrex.ray_tracing:BasicRayTracer.angle_search",
